@@ -273,6 +273,10 @@ class Mesh(Observable):
             pairs: _types.IntArray = cKDTree(all_coords).query_pairs(
                 mergePointsTol, output_type="ndarray"
             )
+            # coincident nodes are merged ACROSS meshes: two nodes of one mesh at the same place
+            # (the lips of a crack) stay two nodes
+            owner = np.repeat(np.arange(len(coords)), sizes)
+            pairs = pairs[owner[pairs[:, 0]] != owner[pairs[:, 1]]]
 
             if len(pairs):
                 rows = np.concatenate([pairs[:, 0], pairs[:, 1]])
